@@ -75,6 +75,13 @@ LibVals(name) ==
             << L(<<B(Zero(8)), B(HighBit(8)), B(<<>>)>>),
                L(<<B(<<3,0,0,0,0,0,0,0>>), B(<<4,0,0,0,0,0,0,128>>), B(<<5,0,0,0>>)>>),
                L(<<B(<<33,0,0,0,0,0,0,0>>), B(<<8,0,0,0,0,0,0,128>>), B(<<1,2,3,4,1,0,0,0>>)>>) >>
+      [] name = "RecTree" ->
+            LET leaf(v) == L(<<B(<<v>>), L(<<>>)>>)  node(v, kids) == L(<<B(<<v>>), L(kids)>>) IN
+            << leaf(0), node(1, <<leaf(2)>>), node(255, <<leaf(3), node(4, <<leaf(5), leaf(6)>>)>>),
+               node(7, <<node(8, <<leaf(9)>>), leaf(10), leaf(11)>>) >>
+      [] name = "RecList" ->
+            LET cons(v, nx) == L(<<B(<<v, 1>>), nx>>) IN
+            << cons(0, None), cons(1, Some(cons(2, None))), cons(3, Some(cons(4, Some(cons(5, Some(cons(6, None))))))) >>
       [] OTHER -> Vals(LibEquiv(name))
 
 Vals(t) ==
